@@ -287,7 +287,8 @@ class Ctx:
 
     @staticmethod
     def _parse_assumptions(out):
-        """One entry per Print Assumptions, in order: [] for closed, else axiom names."""
+        """One entry per Print Assumptions, in order: [] for closed, else the axiom names.  Coq prints
+        `name : type` or, for long types, the name alone on a line with the type indented below."""
         res = []
         cur = None
         for line in out.splitlines():
@@ -298,10 +299,12 @@ class Ctx:
                 cur = []
                 res.append(cur)
             elif cur is not None:
-                m = re.match(r"^([A-Za-z_][A-Za-z0-9_.']*)\s*:", line)
+                if not line.strip() or line.startswith((" ", "\t")):
+                    continue
+                m = re.match(r"^([A-Za-z_][A-Za-z0-9_.']*)\s*(:.*)?$", line)
                 if m:
                     cur.append(m.group(1))
-                elif line and not line.startswith(" "):
+                else:
                     cur = None
         return res
 
@@ -332,7 +335,7 @@ class Ctx:
             lines += ["Require Import %s." % r for r in requires]
             lines.append(prelude)
             lines.append("Definition cases : list (nat * (%s) * (%s)) := [" % ty)
-            lines.append(";\n".join("(%d%%nat, %s, %s)" % (si * shard + j, a, b) for j, (a, b) in enumerate(sh)))
+            lines.append(";\n".join("(%d%%nat, %s, %s)" % (j, a, b) for j, (a, b) in enumerate(sh)))
             lines.append("].")
             lines.append("Definition bad := map (fun c => fst (fst c)) (filter (fun c => "
                          "negb (%s (%s (snd (fst c))) (snd c))) cases)." % (eqb, model_fn))
@@ -356,7 +359,7 @@ class Ctx:
             if not m:
                 errors.append("unparsed coqc output: " + out[-2000:])
                 return
-            bad.extend(int(x) for x in re.findall(r"\d+", m.group(2)))
+            bad.extend(si * shard + int(x) for x in re.findall(r"\d+", m.group(2)))
         while todo or running:
             while todo and len(running) < 8:
                 si, p = todo.pop(0)
